@@ -337,3 +337,22 @@ func init() {
 		}
 	}
 }
+
+func init() {
+	dumpers["cmprows"] = func(p *Prog, m *Model) {
+		pk := map[string]bool{}
+		for _, s := range strings.Split(os.Getenv("PKG"), ",") {
+			pk[s] = true
+		}
+		for _, fn := range allModFuncs(p) {
+			if !pk[pkgOfFunc(fn)] || fn.Synthetic != "" || !isCmpFunc(fn) {
+				continue
+			}
+			for _, gs := range guardSitesOf(p, fn) {
+				if strings.HasPrefix(gs.Name, "return:") {
+					fmt.Printf("%s\t%s\t%s\tPROPS\tREASON\t# %s\n", fnDisplay(fn), gs.Name, gs.Sig, p.ipos(gs.In))
+				}
+			}
+		}
+	}
+}
